@@ -21,7 +21,7 @@ PROPS = {
         "assumptions": ["bytes are modelled as N < 256", "Covenant::to_bytes panics (unwrap) exactly where encode_all = None"],
     },
     "C10": {
-        "coq_targets": ["VM/ExecProofs.vo"],
+        "coq_targets": ["VM/ExecProofs.vo", "VM/LoopCount.vo"],
         "streams": [("vm", VM_RESULT | VM_FUEL)],
         "corr_is_violation": True,
         "rule": "vm: all programs of length <= 3 (quick) / <= 4 (thorough) over a 17-opcode alphabet, hand-written boundary families, type-aware random programs with loops/jumps/heaps, random decodable byte strings; distinct (program, heap) pairs",
